@@ -268,6 +268,10 @@ def step (line : String) : String :=
     else pure (match Line.padPanel { emptyMark := em, panelWidth := pw, tail := tail, fillMode := fm, fillStyle := fs } items with
       | some r => "ok " ++ hexOfChars r
       | none => "PANIC")
+  | ["style.cr_step", tz, l] => opt do
+    let tz ← flag tz
+    let l ← charsOfField l
+    pure ("ok " ++ hexOfChars (Line.crStep tz l))
   | ["style.term", s] => opt do
     let s ← charsOfField s
     let (st, cells) := Term.run Term.init s
